@@ -64,6 +64,8 @@ def execute(mod, case, log_on=False):
         signal.setitimer(signal.ITIMER_REAL, budget)
     try:
         try:
+            from . import entropy
+            entropy.set_stream(("case", case.get("sched_seed", 0)))
             rw = getattr(mod, "reset_world", None)
             if rw:
                 rw()
